@@ -341,4 +341,105 @@ Proof.
     + exact Htint.
 Qed.
 
+(* ====================== errors of a round never include EFuel ====================== *)
+
+Lemma do_transfer_err_kind : forall k w fpv (bs : list ballot) t (s : mstate) e,
+  do_transfer cand ceqb k w fpv bs t s = inr e ->
+  e = EZeroDiv \/ e = EType \/ e = EValue \/ e = EScript.
+Proof.
+  intros k w fpv bs t s e H. destruct k; cbn [STV.do_transfer] in H.
+  - unfold mlift in H. destruct (frac_transfer cand ceqb w fpv bs t) as [a|e'] eqn:E; [discriminate|].
+    injection H as <-. destruct (frac_errors cand ceqb w fpv bs t) as (_ & _ & Hk).
+    destruct (Hk e' E) as [Hx|Hx]; rewrite Hx; auto.
+  - destruct (rand_errors cand ceqb w fpv bs t s) as (_ & _ & Hk).
+    destruct (Hk e H) as [Hx|[Hx|Hx]]; rewrite Hx; auto.
+  - discriminate.
+Qed.
+
+Theorem stv_step_err_kinds : forall cfg t (p0 p : profile) prev n (s : mstate) e,
+  step_ctx p0 p prev -> (s_transfer cfg = TRandom -> script_ok s) ->
+  stv_step cfg t p0 n p prev s = inr e ->
+  e = EValue \/ e = EScript \/ e = EZeroDiv \/ e = EType \/ e = EIndex.
+Proof.
+  intros cfg t p0 p prev n s e Hctx Hscr H.
+  destruct (stv_step_err_inv cand ceqb ceqb_spec cfg t p0 p prev Hctx n s e Hscr H)
+    as [(_ & _ & g & rest & _ & _ & Hcase)|[(w & s1 & _ & _ & _ & Hd)|[(_ & low & Ht)|(_ & He & _)]]].
+  - destruct Hcase as [[_ He]|(kind & _ & Ht)]; [auto|].
+    destruct (tiebreak_set_err cand ceqb ceqb_spec g p kind s e (ctx_wf cand ceqb p0 p prev Hctx) Ht)
+      as [He|[_ He]]; auto.
+  - destruct (do_transfer_err_kind _ _ _ _ _ _ _ Hd) as [He|[He|[He|He]]]; auto.
+  - destruct (tiebreak_set_err cand ceqb ceqb_spec low p0 TBFirstPlace s e (ctx_p0 cand ceqb p0 p prev Hctx) Ht)
+      as [He|[E _]]; [auto|discriminate].
+  - auto 6.
+Qed.
+
+(* ====================== the loop ====================== *)
+
+Notation stv_loop_unfold := (stv_loop_unfold cand ceqb).
+
+Theorem stv_loop_inv : forall fuel cfg t N (p0 p : profile) sts (s s' : mstate) out,
+  stv_inv cfg t N p0 p sts -> (s_transfer cfg = TRandom -> script_ok s) ->
+  stv_loop fuel cfg t p0 p sts s = inl (out, s') ->
+  exists pf stsf, stv_inv cfg t N p0 pf stsf /\ out = rev stsf /\ count_elected stsf = s_m cfg /\
+    scr_suffix s s'.
+Proof.
+  induction fuel as [|fuel IH]; intros cfg t N p0 p sts s s' out Hinv Hscr H;
+    rewrite stv_loop_unfold in H.
+  - destruct (Z.eqb (count_elected sts) (s_m cfg)) eqn:E; [|discriminate].
+    injection H as <- <-. exists p, sts. split; [exact Hinv|]. split; [reflexivity|].
+    split; [apply Z.eqb_eq; exact E|apply scr_suffix_refl].
+  - destruct (Z.eqb (count_elected sts) (s_m cfg)) eqn:E.
+    + injection H as <- <-. exists p, sts. split; [exact Hinv|]. split; [reflexivity|].
+      split; [apply Z.eqb_eq; exact E|apply scr_suffix_refl].
+    + destruct sts as [|prev older]; [discriminate|].
+      destruct (stv_step cfg t p0 (count_elected (prev :: older)) p prev s) as [[[np st] s1]|e] eqn:Es;
+        [|discriminate].
+      destruct (stv_inv_step cfg t N p0 p prev older s s1 np st Hinv Hscr Es) as [Hinv' Hsuf].
+      destruct (IH cfg t N p0 np (st :: prev :: older) s1 s' out Hinv') as (pf & stsf & H1 & H2 & H3 & H4).
+      * intros Hk. apply (script_ok_suffix cand s s1 Hsuf). apply Hscr. exact Hk.
+      * exact H.
+      * exists pf, stsf. split; [exact H1|]. split; [exact H2|]. split; [exact H3|].
+        eapply scr_suffix_trans; eassumption.
+Qed.
+
+(* H: the fuel |cands|+2 is never exhausted *)
+Theorem stv_loop_no_fuel : forall fuel cfg t N (p0 p : profile) sts (s : mstate),
+  stv_inv cfg t N p0 p sts -> (s_transfer cfg = TRandom -> script_ok s) ->
+  (length (cands p) + 1 <= fuel)%nat ->
+  stv_loop fuel cfg t p0 p sts s <> inr EFuel.
+Proof.
+  induction fuel as [|fuel IH]; intros cfg t N p0 p sts s Hinv Hscr Hf; [lia|].
+  rewrite stv_loop_unfold.
+  destruct (Z.eqb (count_elected sts) (s_m cfg)) eqn:E; [discriminate|].
+  destruct Hinv as [(prev & older & -> & Hctx) Hhist Henough Hweight Ht0 Htint].
+  assert (Hinv : stv_inv cfg t N p0 p (prev :: older)).
+  { constructor; try assumption. exists prev, older. split; [reflexivity|exact Hctx]. }
+  destruct (stv_step cfg t p0 (count_elected (prev :: older)) p prev s) as [[[np st] s1]|e] eqn:Es.
+  - destruct (stv_inv_step cfg t N p0 p prev older s s1 np st Hinv Hscr Es) as [Hinv' Hsuf].
+    assert (Hscr1 : s_transfer cfg = TRandom -> script_ok s1).
+    { intros Hk. apply (script_ok_suffix cand s s1 Hsuf). apply Hscr. exact Hk. }
+    destruct (stv_step_summary cfg t p0 p prev Hctx _ s s1 np st Hscr Es) as (Hperm & _ & _ & _).
+    pose proof (Permutation_length3 _ _ _ _ Hperm) as Hlen.
+    destruct (stv_step_ok_inv cand ceqb ceqb_spec cfg t p0 p prev Hctx _ s s1 np st Hscr Es)
+      as [[_ (W & others & mvs & s2 & Hr)]|[(_ & Hcnt & _ & Hd)|(_ & Hcnt & x & Hx)]].
+    + destruct Hr as [HrW _ HrNe _ _ _ _ _ _ _ _ _ _ _].
+      assert (HE : elected_in st = W) by (unfold STVSpec.elected_in; rewrite flat_real_groups; exact HrW).
+      rewrite HE in Hlen. apply (IH cfg t N p0 np _ s1 Hinv' Hscr1).
+      destruct W as [|w W']; [contradiction HrNe; reflexivity|]. cbn [length] in Hlen. lia.
+    + (* default election: the count is complete *)
+      destruct Hd as [_ Hel _ _ _ _ _].
+      assert (HE : elected_in st = flat (remaining prev)).
+      { unfold STVSpec.elected_in. rewrite flat_real_groups, Hel. reflexivity. }
+      rewrite stv_loop_unfold, count_elected_cons, HE.
+      rewrite (Permutation_length (ctx_flat_perm cand ceqb p0 p prev Hctx)).
+      assert (Em : (Z.of_nat (length (cands p)) + count_elected (prev :: older) =? s_m cfg)%Z = true)
+        by (apply Z.eqb_eq; lia).
+      rewrite Em. discriminate.
+    + destruct Hx as [_ _ _ _ HxElim _ _ _ _].
+      assert (HX : eliminated_in st = [x]) by (unfold STVSpec.eliminated_in; rewrite HxElim; reflexivity).
+      rewrite HX in Hlen. cbn [length] in Hlen. apply (IH cfg t N p0 np _ s1 Hinv' Hscr1). lia.
+  - intros Hfuel. injection Hfuel as ->.
+    destruct (stv_step_err_kinds cfg t p0 p prev _ s EFuel Hctx Hscr Es) as [H|[H|[H|[H|H]]]]; discriminate.
+Qed.
+
 End WithCand.
